@@ -276,6 +276,12 @@ func call(v *VM, ft *funcT, xArgs, xRets int) {
 		return
 	}
 	nVarArgs := xArgs - ft.Args + 1
+	if nVarArgs == 0 {
+		// no surplus argument: the variadic parameter is the nil slice, as in Go
+		v.stack = append(v.stack, Value{t: sliceType(ft.VariadicType.value())})
+		callReady(v, ft, xArgs+1, xRets)
+		return
+	}
 	varArgs := make([]Value, nVarArgs)
 	end := len(v.stack) - len(varArgs)
 	copy(varArgs, v.stack[end:])
